@@ -119,7 +119,7 @@ def job_solve(cfg):
     reset()
     n, active = cfg['n'], cfg['active']
     V = Sym.var
-    K = sym_matrix('K', n, active, V)
+    K = sym_matrix('K', n, active, V, skip={(r_, r_) for r_ in cfg.get('zero_diag', ())})
     f = np.zeros(n, dtype=object)
     for r in range(n):
         f[r] = V('f%d' % r)
@@ -198,11 +198,46 @@ def configs(tier, seed):
     return out
 
 
+def real_solve_replay(cfg):
+    """the real solver route on a float system of the same pattern: residual of K c = f on the active rows, value on the null rows"""
+    import scipy.sparse as sp
+    rng = np.random.RandomState(4)
+    n, active = cfg['n'], cfg['active']
+    u = len(active)
+    A = rng.rand(u, u)
+    Kr = A.dot(A.T) + u * np.eye(u)
+    for r in cfg.get('zero_diag', ()):
+        Kr[active.index(r), active.index(r)] = 0.
+    K = np.zeros((n, n))
+    K[np.ix_(active, active)] = Kr
+    f = np.zeros(n)
+    f[active] = rng.rand(u) + 0.5
+    try:
+        if cfg['target'] == 'sparse.solve':
+            from compmech.sparse import solve
+            c = solve(sp.csr_matrix(K), f, silent=True)
+        elif cfg['target'] == 'analysis.static':
+            from compmech.analysis import static
+            c = static(sp.csr_matrix(K), f, silent=True)[1][-1]
+        else:
+            from compmech.analysis import Analysis
+            A_ = Analysis(calc_fext=lambda silent=False: f, calc_k0=lambda silent=False: sp.csr_matrix(K))
+            c = A_.static(NLgeom=False, silent=True)[1][-1]
+    except Exception as e:
+        return {'error': '%s: %s' % (type(e).__name__, e)}
+    c = np.asarray(c)
+    res = K.dot(c) - f
+    null = [r for r in range(n) if r not in active]
+    return {'max_relative_residual': float(np.abs(res[active]).max() / np.abs(f).max()), 'max_on_null': float(np.abs(c[null]).max()) if null else 0.}
+
+
 def solve_configs(tier):
     out = []
     for target in ('sparse.solve', 'analysis.static', 'Analysis.static'):
         for n, active in ((4, [0, 1, 2, 3]), (5, [0, 2, 3]), (5, [1, 4])):
             out.append({'target': target, 'n': n, 'active': active, 'group': 'solve:%s' % target})
+        # a non-null row whose diagonal entry is structurally zero (constraint / Lagrange-multiplier row): still an equation to solve
+        out.append({'target': target, 'n': 5, 'active': [0, 1, 3, 4], 'zero_diag': [3], 'group': 'solve-zero-diagonal-row:%s' % target})
         if tier != 'quick':
             out.append({'target': target, 'n': 6, 'active': [0, 1, 3, 5], 'group': 'solve:%s' % target})
     return out
@@ -234,8 +269,12 @@ def main():
             continue
         sats = run.absorb_job(r)
         if sats:
-            run.violation('%s/%s' % (r['group'], sats[0]['name'].split('[')[0]), '%s: %s fails for n=%d active=%s' % (r['cfg']['target'], sats[0]['name'], r['cfg']['n'], r['cfg']['active']),
-                          {'cfg': r['cfg'], 'failed': [s['name'] for s in sats], 'model': sats[0]['model']})
+            real = real_solve_replay(r['cfg'])
+            if real.get('error') or real.get('max_relative_residual', 0) > 1e-9 or real.get('max_on_null', 0) > 0:
+                run.violation('%s/%s' % (r['group'], sats[0]['name'].split('[')[0]), '%s: %s fails for n=%d active=%s; real function: %s' % (
+                    r['cfg']['target'], sats[0]['name'], r['cfg']['n'], r['cfg']['active'], real), {'cfg': r['cfg'], 'failed': [s['name'] for s in sats], 'model': sats[0]['model'], 'real_function': real})
+            else:
+                run.harness_error('failed obligations of %s did not reproduce on the real function: %s' % (r['cfg'], real))
     return run.finish()
 
 
